@@ -12,9 +12,9 @@ from harness.props import asm_mc  # noqa: F401
 def run(ctx) -> None:
     q = ctx.quick
     fams = [("scopes", 4 if q else 6), ("nest", 6 if q else 7), ("macro0", 6 if q else 7), ("shadowdata", 5 if q else 6),
-            ("loopleak", 5 if q else 7), ("deferarg", 6 if q else 7), ("symshadow", 5 if q else 6), ("assignleak", 5 if q else 6), ("fwdshadow", 7 if q else 8)]
+            ("loopleak", 5 if q else 7), ("deferarg", 6 if q else 7), ("symshadow", 5 if q else 6), ("assignleak", 5 if q else 6), ("fwdshadow", 7 if q else 8), ("exportleak", 5 if q else 6)]
     ctx.rule = ("programs = every program over the 'scopes' (<= %d), 'nest' (<= %d), 'macro0' (<= %d), 'shadowdata' (<= %d), 'loopleak' (<= %d), "
-                "'deferarg' (<= %d), 'symshadow' (<= %d), 'assignleak' (<= %d) and 'fwdshadow' (<= %d) alphabets of MC_Asm + "
+                "'deferarg' (<= %d), 'symshadow' (<= %d), 'assignleak' (<= %d), 'fwdshadow' (<= %d) and 'exportleak' (<= %d) alphabets of MC_Asm + "
                 "seeded APR trees (nesting <= 4, macros, loops); non-trivial = programs with a reference that crosses a "
                 "scope boundary (counted: programs containing a block/scope/macro application)" % tuple(L for _, L in fams))
     ctx.trusted = ["TLC 1.8", "spec/Asm.tla Lookup/Define (static lexical scoping, one-level export)", "harness/apr.py renderer"]
